@@ -272,7 +272,9 @@ impl Story {
         if let Some(divert) = divert
             && divert.is_external
         {
-            let name = divert.get_target_path_string().unwrap();
+            let name = divert.get_target_path_string().ok_or_else(|| {
+                StoryError::InvalidStoryState("External function call without a name.".to_owned())
+            })?;
 
             if !self.externals.contains_key(&name) {
                 if self.allow_external_function_fallbacks {
